@@ -456,6 +456,8 @@ def replay_driver():
 
 
 def obligations(tier, seed):
-    return [dict(name="loops", func="c10:ob_loops", kwargs={}, cost=3),
-            dict(name="bounded", func="c10:ob_bounded", kwargs=dict(max_iter=6 if tier == "quick" else 10), cost=5),
-            dict(name="driver", func="c10:ob_driver", kwargs=dict(dim=3 if tier == "quick" else 4), cost=3)]
+    # `replay`: when the loop structure can no longer be encoded (harness error) the real search is run on the replay family
+    rp = dict(func="c10:replay_search", kwargs={})
+    return [dict(name="loops", func="c10:ob_loops", kwargs={}, cost=3, replay=rp),
+            dict(name="bounded", func="c10:ob_bounded", kwargs=dict(max_iter=6 if tier == "quick" else 10), cost=5, replay=rp),
+            dict(name="driver", func="c10:ob_driver", kwargs=dict(dim=3 if tier == "quick" else 4), cost=3, replay=dict(func="c10:replay_driver", kwargs={}))]
